@@ -195,6 +195,30 @@ def run(ctx: Ctx) -> int:
         ok = bool(ex) and all(not c.args and not c.keywords for c in ex)
         ctx.oblige("C03.R3", ok, ex[0] if ex else fn, f"{what} exits with status 0 (parser.exit() without status)" if ok else f"{what} no longer exits with status 0", fn=fn)
 
+    # the state that decides the channel (self.<attr> read by the tests of error()) is inherited by every
+    # subcommand parser from the parser the user configured: a failure found by the subcommand's parser is
+    # reported by *its* error()
+    chan = sorted({n.attr for t in walk_local(err) if isinstance(t, ast.If) for n in ast.walk(t.test) if isinstance(n, ast.Attribute) and isinstance(n.value, ast.Name) and n.value.id == "self"})
+    ctx.need("exit_on_error" in chan, "error(): a test on self.exit_on_error")
+    asub = ctx.func("_actions:_ActionSubCommands.add_subcommand")
+    sub_param = asub.args.args[2].arg if len(asub.args.args) > 2 else None
+    ctx.need(sub_param, "add_subcommand(self, name, parser, ...)")
+    for attr in chan:
+        cp = [
+            s
+            for s in asub.body
+            if isinstance(s, ast.Assign) and len(s.targets) == 1 and isinstance(s.targets[0], ast.Attribute) and s.targets[0].attr == attr and root_name(s.targets[0]) == sub_param and dotted(s.value) in (f"self.parent_parser.{attr}",)
+        ]
+        ok = bool(cp)
+        ctx.oblige(
+            "C03.R3",
+            ok,
+            cp[0] if cp else asub,
+            f"a subcommand parser inherits `{attr}` from its parent unconditionally: its own failures take the channel the user configured" if ok else f"add_subcommand does not copy `{attr}` from the parent parser: a failure detected by the subcommand's parser takes that parser's own channel (exit instead of ArgumentError or the reverse)",
+            fn=asub,
+            construct=f"subcommand inherits {attr}",
+        )
+
     # ---------------- R4 ------------------------------------------------------
     siblings = {
         "_typehints:ActionTypeHint._check_type": None,
